@@ -107,6 +107,20 @@ def make_cases(tier):
         tagdef = A.stanza(qm, [A.let(sv("tag"), A.string("t"))])
         for src in (2, 5, 7):
             base.append(A.case("c08comp-%d-%d-lazy" % (j, src), A.file([reader, defs, tagdef]), src, "lazy"))
+    # a scoped variable whose value is first forced either on its own or in the middle of another call's parameter list,
+    # depending on the stanza order (values: a call without arguments, a set, a list, a nested call)
+    for j, (value, reader) in enumerate([
+            (A.call("node"), lambda x: A.call("and", A.true(), A.call("not", A.call("is-null", x)))),
+            (A.call("node"), lambda x: A.call("eq", x, x)),
+            (A.st(A.integer(1), A.integer(2)), lambda x: A.call("eq", A.st(A.integer(2), A.integer(1)), x)),
+            (A.st(A.false()), lambda x: A.call("or", A.true(), A.call("is-null", x))),
+            (A.lst(A.call("node"), A.st(A.string("a"))), lambda x: A.call("concat", A.lst(A.integer(0)), x, A.lst(A.call("length", x)))),
+            (A.call("plus", A.integer(1), A.call("plus")), lambda x: A.call("format", A.string("{}-{}-{}"), A.string("p"), x, A.call("plus", x, x)))]):
+        base.append(A.case("c08buf-%d-lazy" % j, A.file([
+            A.stanza(qm, [A.let(sv("val"), value)]),
+            A.stanza(qm, [A.node(sv("rb")), A.attrn(sv("rb"), A.attr("r", reader(sv("val"))))]),
+            A.stanza(qm, [A.node(sv("rc")), A.attrn(sv("rc"), A.attr("plain", sv("val")))]),
+        ]), 2 + j % 2, "lazy"))
     cases = []
     maxn = 3 if tier == "quick" else 4
     for c in base:
